@@ -176,7 +176,7 @@ def main():
              ("elaboration only fills holes B(%d)" % budget, c03.make_factory(H, budget, TC.WITH_HOLES, 40000, elaboration_obligations))]
     parts.append(("annotated groups of 3 leaf definitions", c03.make_factory(
         H, 8, lambda n: ["Let3"] if n.depth == 1 else leaves, 1200, lambda ex, it, root: accept_obligations(ex, it, root, ref_fuel=250))))
-    for name, alpha, b in TC.interplay_families(False, "AFCE" if quick else "ABFCDE"):
+    for name, alpha, b in TC.interplay_families(False, "AFCEJ" if quick else "ABFCDEJ"):
         parts.append(("annotated: " + name, c03.make_factory(H, b, alpha, 4000, lambda ex, it, root: accept_obligations(ex, it, root, ref_fuel=400))))
     only = os.environ.get("C05_PARTS")
     if only:
